@@ -58,6 +58,12 @@ SHAPES = {
     "recursive_struct": ("#[typeshare]\npub struct A { pub left: Option<Box<A>>, pub right: Option<Box<A>>, pub all: Vec<A> }\n", False),
     "mutual_recursion": ("#[typeshare]\npub struct A { pub b: Option<Box<B>>, pub bs: Vec<B> }\n#[typeshare]\npub struct B { pub a: Option<Box<A>>, pub as_: Vec<A> }\n", False),
     "recursive_enum": ('#[typeshare]\n#[serde(tag = "t", content = "c")]\npub enum A { L(Box<A>), R(Box<A>), S { a: Vec<A> }, N }\n', False),
+    "alias_self": ("#[typeshare]\npub type A = A;\n", False),
+    "alias_cycle_2": ("#[typeshare]\npub type Metres = Distance;\n#[typeshare]\npub type Distance = Metres;\n", False),
+    "alias_cycle_3_with_user": ("#[typeshare]\npub type Aa = Bb;\n#[typeshare]\npub type Bb = Cc;\n#[typeshare]\npub type Cc = Aa;\n#[typeshare]\npub struct Uu { pub f: Aa, pub g: Vec<Bb> }\n", False),
+    "alias_chain_into_cycle": ("#[typeshare]\npub type Aa = Bb;\n#[typeshare]\npub type Bb = Bb;\n#[typeshare]\n#[serde(tag = \"t\", content = \"c\")]\npub enum Ee { V(Aa), W { x: Bb } }\n", False),
+    "serialized_as_self": ('#[typeshare(serialized_as = "AccountId")]\npub struct AccountId(Uuid);\n#[typeshare]\npub struct Uu { pub id: AccountId }\n', False),
+    "alias_generic_self": ("#[typeshare]\npub type Tt = Vec<Tt>;\n#[typeshare]\npub type Gg<T> = Gg<Option<T>>;\n", False),
     "use_bare": ("use foo;\n#[typeshare]\npub struct A { pub f: u32 }\n", True),
     "use_rename": ("use foo::Bar as Baz;\n#[typeshare]\npub struct A { pub f: Baz }\n", True),
     "use_glob": ("use foo::*;\n#[typeshare]\npub struct A { pub f: Thing }\n", True),
@@ -206,10 +212,10 @@ def case_ident(case):
 
 def native(nat, src, multi, stage):
     if stage == "parser":
-        r = nat.ask({"op": "parse", "source": src, "multi_file": multi, "crate_name": "app" if multi else "", "file_path": "app/src/lib.rs"})
+        r = nat.ask({"op": "parse", "source": src, "multi_file": multi, "crate_name": "app" if multi else "", "file_path": "app/src/lib.rs"}, timeout=30)
     else:
         cfg = dict(bharness.DEFAULT_CFG.get(stage, {}))
-        r = nat.ask({"op": "generate", "lang": stage, "multi_file": multi, "files": [{"source": src, "crate_name": "app" if multi else "", "file_path": "app/src/lib.rs"}], "config": cfg})
+        r = nat.ask({"op": "generate", "lang": stage, "multi_file": multi, "files": [{"source": src, "crate_name": "app" if multi else "", "file_path": "app/src/lib.rs"}], "config": cfg}, timeout=30)
     return ("panic" in r or "crash" in r), r
 
 
